@@ -1,4 +1,5 @@
 import PortusModel.Props.C14
+import PortusModel.Props.Tables
 #print axioms Portus.C14.digitsVal_repr
 #print axioms Portus.C14.numeral_parses_exactly
 #print axioms Portus.C14.numeral_value_lt
@@ -18,3 +19,4 @@ import PortusModel.Props.C14
 #print axioms Portus.C14.check_model_override
 #print axioms Portus.C14.literal_below_2_31_accepted
 #print axioms Portus.C14.literal_unencodable_refused
+#print axioms Portus.Tables.src_regEnc_eq
